@@ -590,7 +590,13 @@ func RunC16(t *Trace, st *Stats) *Violation {
 			}
 		}
 		// the same outage also fails the Truncate with which the writer rolls the partial section back
+		// (an EMPTY write - the data of an empty block - that fails this way gets its own locus: the
+		// section is then complete on the medium although its Put failed, see D38)
 		if s := t.Cfg.Store; s == "rw" || s == "sc" || s == "sw" {
+			loc := loc
+			if n == 0 {
+				loc += "(empty)"
+			}
 			if !try([]FaultSpec{{Call: i, Kind: "fail", Trunc: true}}, loc+"+trunc") {
 				return first
 			}
